@@ -3,11 +3,13 @@
    Model/Catalog.v (extends Model/Cache.v).
 
    A history is a list of catalog operations [cop]: every public Linker operation of C07 ([COp]),
-   register_table, the register_* entry points called with the NAME of an existing table ([CRegisterByName]: the
+   register_table, register_multiple_tables / Linker(...) over mixed lists of table names and data frames
+   ([CRegisterMultiple]), the register_* entry points called with the NAME of an existing table ([CRegisterByName]: the
    cache slot __splink__df_concat_with_tf / __splink__df_predict / __splink__df_tf_<col> then points at a
    user-owned table; [CHandleByName]: a frame for an existing table), dropping a named table through a
    SplinkDataFrame, realtime compare_records.
-   [cop_safe K fx] is the guard of the theorems: the caller never passes overwrite=True / force, does not
+   [cop_safe K fx] is the guard of the theorems: the caller never passes overwrite=True / force (for
+   [CRegisterMultiple] also: the aliases of one call are pairwise different up to letter case), does not
    itself change its input rows, debug mode is off, and the realtime cached-SQL path is used only on the
    repaired tree (fx715 fx = true, fix b2f0593c) - debug mode and the unrepaired cached path are the refuted
    finding classes below. *)
@@ -57,6 +59,32 @@ Section C18.
       amem K keqb (st_db K s) (PL K (LPlain existing)) = true -> ci_eqb existing name = true ->
       cstep K keqb hash s (CRegisterTable K name false ver) = (s, [Refused name]).
   Proof. intros. eapply register_refused_ci; eauto. Qed.
+
+  (* register_multiple_tables over MIXED inputs (tables given by name and data frames, any order, any lengths): item i and
+     alias i belong together.  (1) a frame whose alias names an existing object - up to letter case - makes the whole call
+     fail without any change, in ANY state, wherever the frame stands in the list ... *)
+  Theorem C18_register_multiple_refused :
+    forall s items aliases ver a existing,
+      In (RFrame ver, a) (combine items aliases) ->
+      amem K keqb (st_db K s) (PL K (LPlain existing)) = true -> ci_eqb existing a = true ->
+      exists evs, cstep K keqb hash s (CRegisterMultiple K items aliases false) = (s, evs) /\ In (Refused a) evs.
+  Proof. intros. eapply register_multiple_refused; eauto. Qed.
+
+  (* ... (2) and, WHATEVER the overwrite flag (Linker(...) without aliases passes overwrite=True), every named entry whose
+     name is not the alias of a FRAME item keeps name, content and origin: the alias of a by-name item is only a label, no
+     table of that name is dropped or replaced *)
+  Theorem C18_register_multiple_touches_frame_aliases_only :
+    forall s items aliases ow l e,
+      aget K keqb (st_db K s) (PL K l) = Some e ->
+      (forall ver a, In (RFrame ver, a) (combine items aliases) -> same_name K a (PL K l) = false) ->
+      aget K keqb (st_db K (fst (cstep K keqb hash s (CRegisterMultiple K items aliases ow)))) (PL K l) = Some e.
+  Proof. intros. eapply register_multiple_touches_frame_aliases_only; eauto. Qed.
+
+  (* register_table(frame, name, overwrite) is the one-frame instance *)
+  Theorem C18_register_table_is_singleton_register_multiple :
+    forall s name ow ver,
+      cstep K keqb hash s (CRegisterTable K name ow ver) = cstep K keqb hash s (CRegisterMultiple K [RFrame ver] [name] ow).
+  Proof. intros. apply register_table_is_singleton; auto. Qed.
 
   (* dropping through Splink a table Splink did not create is refused: [CDropTable name false] builds the frame
      table_to_splink_dataframe(name, name) (created_by_splink = False) and goes through [drop_handle], whose check of that
@@ -110,6 +138,9 @@ Print Assumptions C18_user_tables_untouched.
 Print Assumptions C18_registered_tables_untouched.
 Print Assumptions C18_register_refused.
 Print Assumptions C18_register_refused_case_insensitive.
+Print Assumptions C18_register_multiple_refused.
+Print Assumptions C18_register_multiple_touches_frame_aliases_only.
+Print Assumptions C18_register_table_is_singleton_register_multiple.
 Print Assumptions C18_drop_refused.
 Print Assumptions C18_only_splink_tables_are_droppable.
 Print Assumptions C18_drop_frame_spares_foreign_tables.
@@ -198,6 +229,37 @@ Example C18_case_insensitive_names :
   ci_eqb "people" "PEOPLE" = true /\ ci_eqb "Customer_View" "customer_view" = true /\ ci_eqb "people" "peoples" = false /\
   fst (cstep KI keqbI hashI (c0 true) (CRegisterTable KI "CUSTOMERS" false 3)) = c0 true.
 Proof. repeat split; vm_compute; reflexivity. Qed.
+
+(* register_multiple_tables over a table given by NAME followed by a frame (Linker(["people_in_db", df_new], ...)): the clash
+   check looks at the FRAME's alias ("r" exists -> refused, nothing changes); with free aliases the call is inside the guard
+   and only the frame is registered; with overwrite=True the by-name table's own name used as its alias is NOT dropped
+   (instance of C18_register_multiple_touches_frame_aliases_only) *)
+Example C18_register_multiple_mixed :
+  cstep KI keqbI hashI (c0 true) (CRegisterMultiple KI [RByName "customers"; RFrame 3] ["census"; "R"] false)
+    = (c0 true, [Refused "R"]) /\
+  (let cs := [CRegisterMultiple KI [RByName "customers"; RFrame 3] ["customers"; "new_records"] false] in
+   forallb (cop_safe KI (fxs true)) cs = true /\
+   aget KI keqbI (st_db KI (crun KI keqbI hashI (c0 true) cs)) (PL KI (LPlain "new_records"))
+     = Some {| e_prov := PInput "new_records" 3; e_origin := Caller |} /\
+   aget KI keqbI (st_db KI (crun KI keqbI hashI (c0 true) cs)) (PL KI (LPlain "customers"))
+     = Some {| e_prov := PInput "customers" 0; e_origin := User |}) /\
+  aget KI keqbI (st_db KI (crun KI keqbI hashI (c0 true)
+      [CRegisterMultiple KI [RByName "customers"; RFrame 3] ["customers"; "scratch"] true])) (PL KI (LPlain "customers"))
+    = Some {| e_prov := PInput "customers" 0; e_origin := User |}.
+Proof. vm_compute. repeat split; reflexivity. Qed.
+(* outside the guard (overwrite=True): Linker(frame) WITHOUT aliases registers under __splink__input_table_0 with
+   overwrite=True - a user table of exactly that name at a FRAME position is dropped and replaced (the model follows the
+   code; X keeps such a table only at by-name positions) *)
+Example C18_linker_default_alias_overwrites :
+  let s0 := cinit KI ["inp"] 0 [("__splink__input_table_0", 0)] [] 0 5 6 (fxs true) in
+  aget KI keqbI (st_db KI (crun KI keqbI hashI s0 [CRegisterMultiple KI [RFrame 1] ["__splink__input_table_0"] true]))
+       (PL KI (LPlain "__splink__input_table_0"))
+    = Some {| e_prov := PInput "__splink__input_table_0" 1; e_origin := Caller |} /\
+  aget KI keqbI (st_db KI (crun KI keqbI hashI s0
+         [CRegisterMultiple KI [RByName "inp"; RFrame 1] ["__splink__input_table_0"; "__splink__input_table_1"] true]))
+       (PL KI (LPlain "__splink__input_table_0"))
+    = Some {| e_prov := PInput "__splink__input_table_0" 0; e_origin := User |}.
+Proof. vm_compute. split; reflexivity. Qed.
 
 (* ------------------------------------------------------------------ non-vacuity *)
 Definition example_catalog_history : list (cop KI) :=
